@@ -149,6 +149,9 @@ def gen_di(rng, maxdepth, kind=None):
     tree = permute_optional(rng, fix_scaled(rng, gen.gen_tree(rng, maxdepth, kind)))
     if tree['t'] == 'string' and rng.random() < 0.3:
         tree = dict(tree, min=rng.choice([1, 3, 5]), max=gen.UNLIMITED)
+    if rng.random() < 0.25:
+        # derived classes (TextType, LimitsType, StatusType) at any depth
+        tree = plant_variants(rng, tree, 0.5)
     return dicodec.annotate(rng, tree, UNITS, FMTS)
 
 
@@ -206,7 +209,7 @@ def eval_rebuild(case):
     """export -> json round trip -> get_datatype -> export again, probes through both"""
     from frappy.datatypes import get_datatype
     dt = dicodec.di_to_dt(case['tree'])
-    impl = {'built': False, 'datainfo': None, 'datainfo2': None, 'tree2': None, 'probes': [], 'error': None}
+    impl = {'built': False, 'datainfo': None, 'datainfo2': None, 'tree2': None, 'classes': None, 'probes': [], 'error': None}
     ex = _outcome(dt.export_datatype)
     if ex[0] != 'ok':
         impl['error'] = 'export:' + str(ex[1])
@@ -220,6 +223,7 @@ def eval_rebuild(case):
     impl['built'] = True
     try:
         impl['tree2'] = dicodec.dt_to_di(dt2)
+        impl['classes'] = dicodec.skeleton(impl['tree2'])
     except Exception as e:
         impl['error'] = 'tree2:' + type(e).__name__
     ex2 = _outcome(dt2.export_datatype)
@@ -317,7 +321,7 @@ def snapshot(dt):
 
 def eval_copy(case):
     dt = dicodec.di_to_dt(case['tree'])
-    impl = {'built': False, 'datainfo': None, 'datainfo2': None, 'tree2': None, 'probes': [], 'shared': [],
+    impl = {'built': False, 'datainfo': None, 'datainfo2': None, 'tree2': None, 'classes': None, 'probes': [], 'shared': [],
             'before': None, 'after': None, 'mprobes': [], 'error': None}
     ex = _outcome(dt.export_datatype)
     if ex[0] == 'ok':
@@ -330,6 +334,7 @@ def eval_copy(case):
     impl['built'] = True
     try:
         impl['tree2'] = dicodec.dt_to_di(c)
+        impl['classes'] = dicodec.skeleton(impl['tree2'])
     except Exception as e:
         impl['error'] = 'tree2:' + type(e).__name__
     ex2 = _outcome(c.export_datatype)
@@ -940,6 +945,11 @@ def tree_eq(x, y):
     return json.dumps(x, sort_keys=True) == json.dumps(y, sort_keys=True)
 
 
+def _plain(tree):
+    """the annotated tree without class marks (the `DInfo` of the model has none)"""
+    return dicodec.strip_cls(tree) if isinstance(tree, dict) and 't' in tree else tree
+
+
 def disagreement(case, impl, ans):
     """model vs implementation through the observation function; None when they agree"""
     k = case['k']
@@ -949,17 +959,21 @@ def disagreement(case, impl, ans):
         if canon_model_json(m['datainfo']) != (impl['datainfo'] if impl['datainfo'] is not None else 'bad'
                                                  if not str(impl['error']).startswith('export:') else {'other': impl['error'][7:]}):
             diffs['datainfo'] = (m['datainfo'], impl['datainfo'] or impl['error'])
-        it2 = impl['tree2'] if impl['built'] else 'bad'
+        it2 = _plain(impl['tree2']) if impl['built'] else 'bad'
         if not tree_eq(m['tree2'], it2) and impl['datainfo'] is not None:
             diffs['tree2'] = (m['tree2'], it2)
         if impl['built'] and canon_model_json(m['datainfo2']) != impl['datainfo2']:
             diffs['datainfo2'] = (m['datainfo2'], impl['datainfo2'])
+        if impl['built'] and impl['classes'] is not None and not tree_eq(m['classes'], impl['classes']):
+            diffs['classes'] = (m['classes'], impl['classes'])
         return diffs or None
     if k == 'copy':
         diffs = {}
-        it2 = impl['tree2'] if impl['built'] else ('bad' if impl['error'] == 'copy:bad' else {'other': str(impl['error'])[5:]})
+        it2 = _plain(impl['tree2']) if impl['built'] else ('bad' if impl['error'] == 'copy:bad' else {'other': str(impl['error'])[5:]})
         if not tree_eq(m['tree2'], it2):
             diffs['tree2'] = (m['tree2'], it2)
+        if impl['built'] and impl['classes'] is not None and not tree_eq(m['classes'], impl['classes']):
+            diffs['classes'] = (m['classes'], impl['classes'])
         if sorted(m['shared']) != impl['shared']:
             diffs['shared'] = (m['shared'], impl['shared'])
         return diffs or None
@@ -1053,7 +1067,18 @@ def signature(clause, case, impl=None):
                 if all(_outcome(lambda: dt4.validate(dtcodec.json_to_py(v)))[0] == 'ok' for v in refused):
                     return 'C03:sound:tuple->limits:unordered-pair'
         return f"C03:{clause}:{dicodec.node_kind(a)}->{dicodec.node_kind(b)}"
-    return f"C03:{case['k']}:{clause}:{case['tree']['t']}"
+    if case['k'] == 'rebuild' and clause == 'behaviour' and 'limits' in dicodec.classes(case['tree']):
+        # attribution only: do original and rebuilt type agree on every probe once the LimitsType nodes of the original are the
+        # plain tuples they are described as?
+        try:
+            from frappy.datatypes import get_datatype
+            plain = dicodec.di_to_dt(unlimit(None, case['tree']))
+            dt2 = get_datatype(jround(dicodec.di_to_dt(case['tree']).export_datatype()))
+            if all(run_probe(plain, p) == run_probe(dt2, p) for p in case['probes']):
+                return 'C03:rebuild:behaviour:limits-order-not-described'
+        except Exception:
+            pass
+    return f"C03:{case['k']}:{clause}:{dicodec.node_kind(case['tree'])}"
 
 
 def show(tree):
@@ -1077,13 +1102,13 @@ def describe(case, impl):
         a, b = show(case['a']), show(case['b'])
         bad = [repr(dtcodec.json_to_py(w['v'])) for w in impl['witnesses'] if not w['acc']][:3]
         return f"{a}.compatible({b}) -> {json.dumps(impl['verdict'])}; values of the first type refused by the second: {bad}"
-    dt = dicodec.di_to_dt(case['tree'])
+    dt = show(case['tree'])
     if case['k'] == 'rebuild':
         diff = [(json.dumps(p['o'])[:80], json.dumps(p['d'])[:80]) for p in impl['probes'] if p['o'] != p['d']][:2]
-        return (f"{dt!r}: datainfo {json.dumps(impl['datainfo'])[:300]} rebuilt -> "
+        return (f"{dt}: datainfo {json.dumps(impl['datainfo'])[:300]} rebuilt -> "
                 f"{json.dumps(impl['datainfo2'])[:300] if impl['built'] else impl['error']}; differing probes {diff}")
     diff = [(json.dumps(p['o'])[:80], json.dumps(p['d'])[:80]) for p in impl['probes'] if p['o'] != p['d']][:2]
-    return (f"{dt!r}.copy(): tree {json.dumps(impl['tree2'])[:300] if impl['built'] else impl['error']}; shared {impl['shared']}; "
+    return (f"{dt}.copy(): tree {json.dumps(impl['tree2'])[:300] if impl['built'] else impl['error']}; shared {impl['shared']}; "
             f"original changed by mutating the copy: {impl['before'] != impl['after']}; differing probes {diff}")
 
 
@@ -1224,6 +1249,7 @@ def run(ctx):
             elif k in ('rebuild', 'copy'):
                 res.traces += 1
                 res.count(f'{k}.root=' + c['tree']['t'])
+                res.count(f'{k}.classes=' + ('+'.join(dicodec.classes(c['tree'])) or 'plain'))
                 res.count(f'{k}.built=' + str(impl['built']).lower())
                 for p in impl['probes']:
                     res.count('probe.original=' + ('ok' if isinstance(p['o'], dict) and 'ok' in p['o'] else 'bad' if p['o'] == 'bad' else 'other'))
